@@ -217,20 +217,20 @@ def step (st : DState) (line : String) : DState × String :=
     | some (kp, _) =>
       match Dil.signDetached shake128 shake256 {} kp.sk (unhex m) with
       | none => (st, "fault:sign-fuel")
-      | some (sig, _) => (st, "ok " ++ hx sig)
+      | some (sig, _, _) => (st, "ok " ++ hx sig)
   | ["dl.signsk", sk, m] =>
     match Dil.signDetached shake128 shake256 {} (unhex sk) (unhex m) with
     | none => (st, "fault:sign-fuel")
-    | some (sig, _) => (st, "ok " ++ hx sig)
+    | some (sig, _, _) => (st, "ok " ++ hx sig)
   | ["dl.exits", sk, m] =>   -- model-only: the rejection-loop exits taken
     match Dil.signDetached shake128 shake256 {} (unhex sk) (unhex m) with
     | none => (st, "fault:sign-fuel")
-    | some (_, ex) => (st, "ok " ++ ",".intercalate (ex.map exitStr))
+    | some (_, ex, _) => (st, "ok " ++ ",".intercalate (ex.map exitStr))
   | ["dl.malsign", cfg, sk, m] =>   -- model-only: signer that skips one signing-side check
     let c : Dil.SignCfg := { skipZ := cfg == "z", skipW0 := cfg == "w0", skipCt0 := cfg == "ct0", skipHint := cfg == "hint" }
     match Dil.signDetached shake128 shake256 c (unhex sk) (unhex m) with
     | none => (st, "fault:sign-fuel")
-    | some (sig, ex) => (st, s!"ok {hx sig} {",".intercalate (ex.map exitStr)}")
+    | some (sig, _, viol) => (st, s!"ok {hx sig} {if viol.isEmpty then "none" else ",".intercalate viol}")
   | ["dl.verify", m, s, p] => (st, "ok " ++ showBool (Dil.verify shake128 shake256 (unhex s) (unhex m) (unhex p)))
   | ["dl.open", sm, p] =>
     match Dil.openSealed shake128 shake256 (unhex sm) (unhex p) with
